@@ -29,6 +29,46 @@ def impl_roundtrip(t):
     return out
 
 
+def perturbations(t):
+    """copies of t that differ in exactly one field somewhere in the term"""
+    out = []
+    if isinstance(t, T.BoundaryType):
+        for mn in {t.min, "NegativeInfinity", 0}:
+            for mx in {t.max, "Infinity", 10}:
+                for i1 in (True, False):
+                    for i2 in (True, False):
+                        v = T.BoundaryType(t.base_type, mn, mx, i1, i2)
+                        if (mn, mx, i1, i2) != (t.min, t.max, t.min_inclusive, t.max_inclusive):
+                            out.append(v)
+        out.append(T.BoundaryType("int" if t.base_type == "float" else "float", t.min, t.max, t.min_inclusive, t.max_inclusive))
+    elif isinstance(t, T.NamedType):
+        out += [T.NamedType(t.name + "x", t.qname), T.NamedType(t.name, t.qname + "x")]
+    elif isinstance(t, T.EnumType):
+        out += [T.EnumType(frozenset(set(t.values) | {"extra"})), T.EnumType(frozenset(list(t.values)[1:]))]
+    elif isinstance(t, T.LiteralType):
+        out += [T.LiteralType([*t.literals, 99]), T.LiteralType(list(t.literals[1:])), T.LiteralType(list(reversed(t.literals)))]
+    elif isinstance(t, T.TypeVarType):
+        out += [T.TypeVarType(t.name + "x", t.upper_bound), T.TypeVarType(t.name, T.UnknownType() if t.upper_bound is None else None)]
+    elif isinstance(t, T.UnionType | T.ListType | T.SetType | T.TupleType):
+        ts = list(t.types)
+        out += [type(t)(ts + [T.UnknownType()]), type(t)(ts[1:]), type(t)(list(reversed(ts)))]
+        for k, x in enumerate(ts[:2]):
+            for px in perturbations(x)[:3]:
+                out.append(type(t)(ts[:k] + [px] + ts[k + 1:]))
+        for c in (T.UnionType, T.ListType, T.SetType, T.TupleType):
+            if c is not type(t):
+                out.append(c(ts))
+    elif isinstance(t, T.NamedSequenceType):
+        out += [T.NamedSequenceType(t.name + "x", t.qname, t.types), T.NamedSequenceType(t.name, t.qname, list(reversed(t.types)))]
+    elif isinstance(t, T.DictType):
+        out += [T.DictType(t.value_type, t.key_type)] + [T.DictType(px, t.value_type) for px in perturbations(t.key_type)[:2]]
+    elif isinstance(t, T.CallableType):
+        out += [T.CallableType(list(reversed(t.parameter_types)), t.return_type)] + [T.CallableType(t.parameter_types, px) for px in perturbations(t.return_type)[:2]]
+    elif isinstance(t, T.FinalType):
+        out += [T.FinalType(px) for px in perturbations(t.type_)[:3]]
+    return out
+
+
 def run(ctx):
     rng = random.Random(ctx["seed"])
     tier = ctx["tier"]
@@ -82,6 +122,10 @@ def run(ctx):
             b = rng.choice(pair_pool)
             a = rng.choice(pair_pool) if rng.random() < 0.5 else a
         pairs.append((a, b))
+    # near misses: every term against its single-field perturbations (one flag, bound, name or literal changed)
+    for t in leaves + level1[:: max(1, len(level1) // 100)] + [G.random_type(rng, 2) for _ in range(300 if tier == "quick" else 4000)]:
+        for v in perturbations(t):
+            pairs.append((t, v))
     pcases = [vlib.sx(["types_pair", vlib.ty_sx(a), vlib.ty_sx(b)]) for a, b in pairs]
     pans = vlib.run_model(pcases)
     n_equal = 0
